@@ -147,7 +147,7 @@ def r4_length_of(run, F):
     e = [b for p, b in F.lib.bodies.items() if p == "<alpha::common::Expression as alpha::typer::Analyzable>::analyze"]
     run.require(e, "typer Expression::analyze not found")
     e = e[0]
-    m = [x for x in hirq.matches(e["hir"]) if len(x["arms"]) > 15][0]
+    m = [x for x in hirq.matches(e["hir"]) if hirq.n_alts(x) > 15][0]
     arm = hirq.arm_for(m, "Expression::LengthOfArray")
     run.require(arm, "LengthOfArray arm not found in the typer")
     tm = [x for x in hirq.matches(arm[0]["body"]) if hirq.local_name_of(hirq.unwrap_trivial(x["scrut"])) == "array_type"]
